@@ -6,7 +6,6 @@ import (
 	"fmt"
 	"io"
 	"net/http"
-	"net/http/httptest"
 	neturl "net/url"
 	"sort"
 	"strings"
@@ -191,7 +190,7 @@ func execC19(c C19Case) *Failure {
 		}
 		opts = append(opts, mcp.WithHTTPReqHandler(br))
 	} else {
-		ts := httptest.NewServer(rec)
+		ts := ServeTCP(rec)
 		defer ts.Close()
 		base = ts.URL
 	}
